@@ -24,6 +24,9 @@ type TypeCase struct {
 	Flags    uint8     `json:"flags"` // M / P bits; the V bit follows Vendor
 	V        gen.Val   `json:"v"`
 	Children []gen.Val `json:"children,omitempty"`
+	// Shape of the struct field the value is marshalled from / unmarshalled into (marshal_test.go):
+	// "" = the datatype.* type of the declared name, "native" = the plain Go type.
+	Shape string `json:"shape,omitempty"`
 }
 
 const (
@@ -43,7 +46,9 @@ func childCode(typ string) uint32 {
 }
 
 func (c TypeCase) dictionary() string {
-	app := gen.DictApp{ID: 0, Name: "Base", AVPs: []gen.DictAVP{{Name: "T-Under-Test", Code: typeCode, Vendor: c.Vendor, Type: c.Type}}}
+	app := gen.DictApp{ID: 0, Name: "Base", AVPs: []gen.DictAVP{{Name: "T-Under-Test", Code: typeCode, Vendor: c.Vendor, Type: c.Type}},
+		// the command of the message the struct encoder path marshals into (ReadMessage wants one)
+		Cmds: []gen.DictCmd{{Code: marshalCmd, Short: "TM", Name: "Type-Marshal", Req: []string{"T-Under-Test"}, Ans: []string{"T-Under-Test"}}}}
 	for _, t := range childTypes {
 		app.AVPs = append(app.AVPs, gen.DictAVP{Name: "Child-" + t, Code: childCode(t), Type: t})
 	}
@@ -147,7 +152,8 @@ func runType(c TypeCase) *ev.Failure {
 	if err != nil || !bytes.Equal(enc, wire) {
 		return ev.Failf(sig, "%s value built with diam.NewAVP serialises differently from the reference encoding (err=%v):\n want % x\n got  % x", c.Type, err, clip(wire), clip(enc))
 	}
-	return nil
+	// built through the struct encoder, which picks the representation from the declared type name
+	return marshalPath(c, p)
 }
 
 func clip(b []byte) []byte {
@@ -181,9 +187,11 @@ func drawTypeCase(t *rapid.T, typ string) TypeCase {
 			c.Children = append(c.Children, gen.Value(t, rapid.SampledFrom(childTypes).Draw(t, "child-type"), gen.ValueOpts{MaxBytes: 300}))
 		}
 		c.V = gen.Val{T: gen.TGrouped}
+		c.Shape = rapid.SampledFrom([]string{ShapeDatatype, ShapeNative}).Draw(t, "field-shape")
 		return c
 	}
 	c.V = gen.Value(t, typ, vo)
+	c.Shape = rapid.SampledFrom([]string{ShapeDatatype, ShapeNative}).Draw(t, "field-shape")
 	return c
 }
 
@@ -199,7 +207,7 @@ func knownToGenerator(typ string) bool {
 var typeProp = ev.Register(&ev.Prop[TypeCase]{
 	ID:   "C17",
 	Name: "types",
-	Rule: "EXHAUSTIVE over the type names: every key of datatype.Available (plus spellings that are no type names, which only count if the parser accepts them) x a fixed number of valid values per name (boundary-biased, drawn reproducibly from the seed) x vendor / flag variants: a generated dictionary declaring an AVP of that type must load; the reference encoding of the value must DecodeAVP to an equal value of that type and re-serialise to identical bytes; the value built with diam.NewAVP must serialise to the reference bytes; non-trivial = a declarable name; distinct by case",
+	Rule: "EXHAUSTIVE over the type names: every key of datatype.Available (plus spellings that are no type names, which only count if the parser accepts them) x a fixed number of valid values per name (boundary-biased, drawn reproducibly from the seed) x vendor / flag variants: a generated dictionary declaring an AVP of that type must load; the reference encoding of the value must DecodeAVP to an equal value of that type and re-serialise to identical bytes; the value built with diam.NewAVP must serialise to the reference bytes; and through the struct encoder: a struct with one field tagged with the AVP (field of the datatype.* type or of the plain Go type; Grouped: a nested struct with one member field per child) is marshalled with Message.Marshal, written, and must equal the reference encoding of the value (type id, payload length, bytes), decode with ReadMessage to the declared type id and the same value, and Unmarshal must give the value back; non-trivial = a declarable name; distinct by case",
 	Run:  runType,
 	Classify: func(c TypeCase) (bool, []string) {
 		if _, ok := datatype.Available[c.Type]; !ok {
@@ -208,6 +216,11 @@ var typeProp = ev.Register(&ev.Prop[TypeCase]{
 		cl := []string{"type:" + c.Type}
 		if c.Vendor != 0 {
 			cl = append(cl, "vendor-specific")
+		}
+		if c.Shape == ShapeNative {
+			cl = append(cl, "marshalled-from-native-Go-field")
+		} else {
+			cl = append(cl, "marshalled-from-datatype-field")
 		}
 		return true, cl
 	},
